@@ -453,6 +453,15 @@ func runSession(s *Session) *SessResult {
 			}
 			res.Timings = append(res.Timings, [4]float64{ms(tc), ms(tr), ms(ta), float64(len(line))})
 			res.TimedLines = append(res.TimedLines, line)
+			// a helper call may have written several lines (a split message): Send hands the pieces to the limiter one
+			// after the other, so piece k is "called" when piece k-1 has been written. Marker -3 = continuation piece.
+			time.Sleep(3 * time.Millisecond)
+			wmu.Lock()
+			for k := before + 1; k < len(written); k++ {
+				res.Timings = append(res.Timings, [4]float64{ms(arrivals[k-1]), -3, ms(arrivals[k]), float64(len(written[k]))})
+				res.TimedLines = append(res.TimedLines, written[k])
+			}
+			wmu.Unlock()
 		case "lastarrival":
 			wmu.Lock()
 			if len(arrivals) > 0 {
